@@ -22,13 +22,15 @@ PROPS = ["wrap_ops_eq_bitvec", "wrap_ops_in_range", "shift_ops_eq_bitvec", "divf
          "cmpIntDbl_is_exact", "cmpIntDbl_eq_rat", "rnd53_exact_small_monotone_edge", "compare_mixed_correct_of_inclusive", "compare_mixed_partial",
          "compare_wrong_on_pinned", "compare_ints_correct", "unwrap_range",
          "varops_are_left_folds", "nary_methods_wrap", "bitwise32_range_checks", "bitwise32_eq_bitvec", "num_div_is_floor_of_quotient",
-         "num_mod_zero_is_dividend", "num_mod_floor_convention", "num_rem_is_fmod", "vm_number_handlers"]
+         "num_mod_zero_is_dividend", "num_mod_floor_convention", "num_rem_is_fmod", "vm_number_handlers",
+         "int_to_double_exact", "to_number_round_trip", "to_bytes_round_trip"]
 # configuration-generic lemmas (audited separately when Props/C14 does not build, to show what still holds)
 LEMMAS = ["opMethod_add", "opMethod_sub", "opMethod_mul", "opMethod_and", "opMethod_or", "opMethod_xor", "notMethod_bitvec", "opMethod_shl", "opMethod_sar",
           "divf_eq_floor_div", "mod_eq_floor_mod", "trunc_div_rem_correct", "mod_zero_is_dividend", "div_zero_errors", "no_ub_iff_guarded", "no_ub_partial",
           "ub_reachable_on_pinned", "compareInt64Double_correct", "compareInt64Double_partial", "compareUint64Double_partial", "compareMethod_ints",
           "compare_ub_on_pinned", "decode_wf", "rnd53_small", "rnd53_big", "varopFold_eq_foldl", "methodLoop_add", "methodLoop_mul",
-          "bitop32_and", "bitop32_or", "bitop32_xor", "bitop32_shl", "bitop32_sar", "bitop32_shr", "checkIntRange_iff"]
+          "bitop32_and", "bitop32_or", "bitop32_xor", "bitop32_shl", "bitop32_sar", "bitop32_shr", "checkIntRange_iff",
+          "decode_encodeInt", "unwrap_ofInt", "toNumber_eval", "toBytes_round_trip"]
 ENV = dict(os.environ, ASAN_OPTIONS="detect_leaks=0:abort_on_error=0", UBSAN_OPTIONS="print_stacktrace=0")
 HARNESS_SRC = os.path.join(VERIF, "harness/C14/arith.c")
 NJOBS = 12
